@@ -65,7 +65,8 @@ def _raw_summary(raw):
                        iterations=e["iterations"], x=[float(v) for v in e["x"].ravel()],
                        target_type=e["target_type"])
         elif e["ev"] == "Crash":
-            out.update(crash=e["type"], frame=e.get("frame"), crash_msg=e.get("msg", "")[:200])
+            out.update(crash=e["type"], frame=e.get("frame"), crash_msg=e.get("msg", "")[:200],
+                       crash_src=e.get("src", ""))
         elif e["ev"] == "Construct" and e["outcome"] != "ok":
             out.update(rejected=e["outcome"], rej_msg=e.get("msg", "")[:160])
     ys = []
